@@ -647,6 +647,8 @@ struct Hist
     mark("quiesce:close");
     absorb();
   }
+  // smallest payload the kernel refuses with EMSGSIZE: 65507 + 1 over IPv4, 65527 + 1 over IPv6
+  size_t oversize() const { return v6 ? 65528 : 65508; }
   // accepted send that the kernel refuses with EMSGSIZE: the session is closed on error
   void stepOversize()
   {
@@ -654,7 +656,7 @@ struct Hist
     if (v.empty()) { stepPeerSend(); return; }
     uint64_t sid = r.pick(v);
     if (S[sid].kind == 'C') noteDropsOf(S[sid].local);
-    std::string big(65508 + r.below(200), 'x');
+    std::string big(oversize() + r.below(200), 'x');
     Ev e; e.k = Ev::MARK; e.bytes = "oversize send of " + std::to_string(big.size()) + " bytes on sid " + std::to_string(sid); e.sid = sid; W.add(std::move(e));
     T->send(sid, big.data(), big.size());
     feat["step_oversize_send"]++;
@@ -710,7 +712,7 @@ struct Hist
     if (other)
     {
       if (r.chance(0.12)) { // error close instead of an application close
-        std::string big(65508, 'y');
+        std::string big(oversize(), 'y');
         Ev e; e.k = Ev::MARK; e.bytes = "oversize send on sid " + std::to_string(other); e.sid = other; W.add(std::move(e));
         if (S[other].kind == 'C') noteDropsOf(S[other].local);
         T->send(other, big.data(), big.size());
